@@ -926,7 +926,16 @@ def update_file(remote, local, verbose=False):
         if read_lines(patch_contents) != patch_hashes[patch_name]:
             raise ValueError("patch %r was garbled" % patch_name)
         patch_contents_unicode = list(patch_contents)
-        patch_lines(lines, patches_from_ed_script(patch_contents_unicode))
+        try:
+            patch_lines(lines, patches_from_ed_script(patch_contents_unicode))
+        except ValueError:
+            # the patch is the one the index lists, but not one that can be
+            # applied here (diff -e writes "s/.//" after a text line that
+            # consists of a dot, for instance)
+            if verbose:
+                print("update_file: cannot apply patch %r, downloading full file"
+                      % patch_name)
+            return download_file(remote, local)
 
     new_hash = read_lines(lines)
     if new_hash != remote_hash:
